@@ -19,6 +19,8 @@ pub enum Profile {
     Resubmit,
     /// One or two trackers driven exactly to (and past) 100 confirmations, with a few requests around the completing block.
     Completion,
+    /// C15: multi-user histories with small blobs whose requests go through the real HTTP front, most of them mutated.
+    Http,
 }
 
 pub struct Gen {
@@ -35,6 +37,7 @@ pub struct Gen {
     pub used_penalties: Vec<Vec<(u32, usize)>>,
     pub filler_n: u32,
     pub sig_mut_pct: u64,
+    pub small_blobs: bool,
 }
 
 const LENS: [usize; 9] = [0, 0, 300, 2047, 2048, 2049, 4096, 4097, 9000];
@@ -44,7 +47,11 @@ impl Gen {
         let mut rng = Rng::new(derive(seed, "gen", 0));
         let n_users = rng.range(1, 4) as u32;
         let n_disputes = rng.range(2, 6) as u32;
-        let slots = *rng.pick(&[1u32, 2, 3, 5, 20, 10_000]);
+        let mut slots = *rng.pick(&[1u32, 2, 3, 5, 20, 10_000]);
+        if profile == Profile::Http && rng.chance(1, 8) {
+            // a second registration exhausts the slot counter (error code 65)
+            slots = *rng.pick(&[u32::MAX, u32::MAX / 2 + 1]);
+        }
         let (duration, grace) = match profile {
             Profile::Expiry => (*rng.pick(&[0u32, 1, 2, 3, 5, 10]), *rng.pick(&[0u32, 1, 2, 6])),
             Profile::Chain => (*rng.pick(&[50u32, 300, 4320]), *rng.pick(&[1u32, 6])),
@@ -65,6 +72,7 @@ impl Gen {
         }
         let sig_mut_pct = match profile {
             Profile::Auth => 35,
+            Profile::Http => 12,
             _ => 3,
         };
         Gen {
@@ -79,6 +87,7 @@ impl Gen {
             used_penalties: vec![vec![]; n_disputes as usize],
             filler_n: 0,
             sig_mut_pct,
+            small_blobs: profile == Profile::Http,
         }
     }
 
@@ -129,7 +138,11 @@ impl Gen {
     fn blob(&mut self, d: u32) -> Blob {
         match self.rng.weighted(&[70, 8, 4, 5, 5, 8]) {
             0 => {
-                let len = *self.rng.pick(&LENS);
+                let mut len = *self.rng.pick(&LENS);
+                if self.small_blobs && len > 600 && self.rng.chance(4, 5) {
+                    // add_appointment bodies are capped at 2048 bytes: keep most blobs below ~900 bytes
+                    len = *self.rng.pick(&[0usize, 100, 300, 600]);
+                }
                 let v = if self.rng.chance(1, 6) { 1 } else { 0 };
                 self.used_penalties[d as usize].push((v, len));
                 Blob::Valid { v, len }
@@ -411,7 +424,7 @@ pub fn generate(property: &str, seed: u64, profile: Profile) -> History {
         _ => g.rng.range(6, 45) as usize,
     };
     match profile {
-        Profile::Breach | Profile::Auth | Profile::Resubmit => {
+        Profile::Breach | Profile::Auth | Profile::Resubmit | Profile::Http => {
             // weights: register, add, breach, advance, reorg, misc
             let w = [
                 g.rng.range(2, 10) as u32,
@@ -547,6 +560,9 @@ pub fn generate(property: &str, seed: u64, profile: Profile) -> History {
             }
         }
     }
+    if profile == Profile::Http {
+        http_pass(&mut g);
+    }
     // make sure the tower has seen everything at the end
     g.ops.push(Op::Poll);
     History {
@@ -556,4 +572,71 @@ pub fn generate(property: &str, seed: u64, profile: Profile) -> History {
         ops: g.ops,
         faults: FaultScript::default(),
     }
+}
+
+/// Routes the API operations of a history through the HTTP front: most keep their meaning (possibly re-encoded), and
+/// around them mutated copies that must be refused are inserted, plus pings and windows in which the tower has flagged
+/// the node unreachable (every request must then be answered 503 or refused for its form).
+fn http_pass(g: &mut Gen) {
+    use crate::http::HttpMut;
+    let ops = std::mem::take(&mut g.ops);
+    let mut out: Vec<Op> = vec![];
+    let is_api = |o: &Op| matches!(o, Op::Register { .. } | Op::RegisterBadId { .. } | Op::Add { .. } | Op::Get { .. } | Op::SubInfo { .. });
+    let mut down = false;
+    let mut seen_api: Vec<Op> = vec![];
+    for op in ops {
+        // Restarts and block-download faults belong to other properties' histories.
+        if matches!(op, Op::Restart | Op::FetchFault { .. }) {
+            continue;
+        }
+        if is_api(&op) {
+            // a refused sibling before
+            if g.rng.chance(2, 5) {
+                let mut m = HttpMut::gen(&mut g.rng);
+                while m.preserving() {
+                    m = HttpMut::gen(&mut g.rng);
+                }
+                out.push(Op::Http { base: Box::new(op.clone()), m });
+            }
+            let keep_plain = g.rng.chance(1, 5);
+            if keep_plain {
+                out.push(op.clone());
+            } else {
+                let mut m = HttpMut::gen(&mut g.rng);
+                // the history's own operation keeps its meaning (what it sets up is needed later)
+                while !m.preserving() {
+                    m = HttpMut::gen(&mut g.rng);
+                }
+                out.push(Op::Http { base: Box::new(op.clone()), m });
+            }
+            seen_api.push(op.clone());
+            // a refused or replayed sibling after (state: the appointment now exists / slots were consumed)
+            if g.rng.chance(1, 3) {
+                let m = HttpMut::gen(&mut g.rng);
+                let base = if g.rng.chance(1, 3) { g.rng.pick(&seen_api).clone() } else { op.clone() };
+                out.push(Op::Http { base: Box::new(base), m });
+            }
+        } else {
+            out.push(op.clone());
+        }
+        if g.rng.chance(1, 25) {
+            let m = if g.rng.chance(1, 2) { HttpMut::Plain } else { HttpMut::gen(&mut g.rng) };
+            out.push(Op::Http { base: Box::new(Op::Ping), m });
+        }
+        // outage windows: the node goes away and the tower notices at its next poll
+        if !down && g.rng.chance(1, 30) {
+            out.push(Op::NodeDown);
+            out.push(Op::Poll);
+            down = true;
+        } else if down && g.rng.chance(1, 4) {
+            out.push(Op::NodeUp);
+            out.push(Op::Poll);
+            down = false;
+        }
+    }
+    if down {
+        out.push(Op::NodeUp);
+        out.push(Op::Poll);
+    }
+    g.ops = out;
 }
